@@ -1314,7 +1314,12 @@ LEVEL_TEXT = (
     "M/c = _scalar_multiply(1/c), M@N = chosen product class, lazy .T/.inv/.sqrt; no class overrides them); the "
     "constructor ARGUMENTS of every operation of every modelled class, path by path (params_*: lower flipped under "
     "transpose, same array and lower under inverse, 1/scalar, sign kept / flipped, factor.inv.T, ...); the capacitance "
-    "matrix expression of the three low-rank classes evaluates for all values to K^-1 + sign V S^-1 U (capacitance_formula)."
+    "matrix expression of the three low-rank classes evaluates for all values to K^-1 + sign V S^-1 U (capacitance_formula); "
+    "the for-loops of _left/_right_matrix_multiply of the three product classes, extracted as folds, evaluate for EVERY "
+    "chain of factors to the model's leftMul / rightMul of the product expression (product_leftMul_loop, "
+    "product_rightMul_loop) and the comprehensions of the block-diagonal / block-row / block-column classes to the model's "
+    "block operations for two blocks (blockdiag_/blockrow_/blockcol_multiply_agrees); no method of the table is left "
+    "unrepresented (no_unknown_methods)."
 )
 LEVEL_NOTE = (
     "Trusted: Lean kernel, axioms {propext, Classical.choice, Quot.sound}; LAPACK solves/factorisations are modelled as "
